@@ -295,7 +295,123 @@ def check_eval(pid, tier, seed):
     chk.finish()
 
 
-CHECKS = {"C01": check_rules, "C02": check_rules, "C10": check_rules, "C05": check_eval, "C13": check_eval}
+# ------------------------------------------------------------------------------ C08 / C11 / C12
+
+def textgen(chk, wd, mode, trace, stride, phases, tag):
+    """Runs TextGen.tla in `mode`, one TLC process per phase; returns the GEN output files."""
+    jobs = []
+    for ph in phases:
+        outp = os.path.join(wd, "tg_%s_%s_%03d.out" % (mode, tag, ph))
+        jobs.append(dict(module="TextGen", trace=trace, env={"MODE": mode, "STRIDE": stride, "PHASE": ph}, stdout_path=outp, xmx="5g", timeout=3000))
+    res = tlc_many(jobs)
+    for r in res:
+        if r["rc"] != 0 or r["error"]:
+            sys.stderr.write(r.get("stdout", "")[-2000:])
+            tool_error("TextGen %s failed: %s" % (mode, r["error"]))
+        chk.coverage["states"] = chk.coverage.get("states", 0) + r["distinct"]
+        chk.coverage["transitions"] = chk.coverage.get("transitions", 0) + r["states"]
+    return [j["stdout_path"] for j in jobs]
+
+
+def replay_text(chk, wvbin, wd, cmd, outs, pid, tag, key_fields, extra=None):
+    from concurrent.futures import ThreadPoolExecutor
+
+    def one(io):
+        i, o = io
+        mis = os.path.join(wd, "%s_%s_mis_%02d.ndjson" % (cmd, tag, i))
+        out = wv(wvbin, [cmd, "--in", o, "--out", mis] + (extra or []))
+        return json.loads(out.strip().splitlines()[-1]), mis
+    with ThreadPoolExecutor(max_workers=NPROC) as ex:
+        rs = list(ex.map(one, enumerate(outs)))
+    tot = {}
+    samples = []
+    for summ, mis in rs:
+        for k, v in summ.items():
+            if k == "samples":
+                samples += v
+            elif isinstance(v, dict):
+                d = tot.setdefault(k, {})
+                for kk, vv in v.items():
+                    d[kk] = d.get(kk, 0) + vv
+            else:
+                tot[k] = tot.get(k, 0) + v
+        for l in open(mis):
+            m = json.loads(l)
+            if m["prop"] != pid:
+                continue
+            key = "|".join([m["prop"], m["kind"]] + [str(m[k]) for k in key_fields if k in m])
+            chk.violation(key, "%s: %s" % (m["kind"], json.dumps({k: v for k, v in m.items() if k not in ("prop", "kind")}, sort_keys=True)), {"replay_case": m, "replayer": cmd})
+    for o in outs:
+        try:
+            os.remove(o)
+        except OSError:
+            pass
+    return tot, samples
+
+
+def check_hash(pid, tier, seed):
+    chk = Check(pid, tier, seed, "exploration")
+    wd = workdir(pid)
+    wvbin = build()
+    quick = tier == "quick"
+    games, plies = (30, 60) if quick else (400, 100)
+    info = play_traces(chk, wvbin, wd, "move,hash", games, plies)
+    # impl -> spec: every pair of met positions the two clauses could fail on, judged by TLC
+    validate_stream(chk, os.path.join(wd, "play.hash.ndjson"), pid, NPROC if quick else NPROC * 2)
+    pairs = read_events(os.path.join(wd, "play.hash.ndjson"))
+    kinds = {}
+    for e in pairs:
+        kinds[e["why"]] = kinds.get(e["why"], 0) + 1
+    # spec -> impl: single-component variants with the relation the hash must satisfy
+    stride = NPROC if quick else NPROC
+    outs = textgen(chk, wd, "hash", os.path.join(wd, "play.move.ndjson"), stride, range(stride), "v")
+    tot, samples = replay_text(chk, wvbin, wd, "hashvar", outs, pid, "v", ("p", "q"), extra=["--seed", seed])
+    chk.coverage.update({"evaluations": len(pairs) + tot.get("pairs", 0),
+                         "distinct_nontrivial": kinds.get("same-identity", 0) + kinds.get("same-hash", 0) + sum(v for k, v in tot.get("by_kind", {}).items() if "(free)" not in k),
+                         "rule": "pairs of positions: (a) among positions met in seeded random play and transposition probes, every pair with equal identity or equal hash plus all neighbours, judged by TLC against SameForHash/PosKey; (b) TLC-generated single-component variants (right removed/added, en-passant target set/cleared, side flipped, clocks changed, piece moved/replaced) with the required relation, under three hasher seeds; non-trivial = pairs on which a clause of C08 is actually binding (not 'free')",
+                         "samples": samples[:3], "pair_kinds_from_play": kinds, "variant_kinds": tot.get("by_kind", {})})
+    chk.assumptions += ["a 64-bit chance collision would be reported as a violation with the pair (probability < 1e-7 per run)"]
+    chk.finish()
+
+
+def check_fen(pid, tier, seed):
+    chk = Check(pid, tier, seed, "exploration")
+    wd = workdir(pid)
+    wvbin = build()
+    quick = tier == "quick"
+    games, plies = (40, 70) if quick else (800, 120)
+    info = play_traces(chk, wvbin, wd, "fen", games, plies)
+    validate_stream(chk, os.path.join(wd, "play.fen.ndjson"), pid, NPROC if quick else NPROC * 2)
+    outs = textgen(chk, wd, "fen", None, NPROC, range(NPROC), "f")
+    tot, samples = replay_text(chk, wvbin, wd, "fen", outs, pid, "f", ("text",))
+    evs = read_events(os.path.join(wd, "play.fen.ndjson"))
+    distinct = len({"".join(e["text"]) for e in evs})
+    chk.coverage.update({"evaluations": len(evs) + tot.get("fens", 0), "distinct_nontrivial": distinct + tot.get("fens", 0),
+                         "rule": "(a) every position of seeded random play written by the implementation, compared by TLC with ChessText!ToFen, read back, re-written, legal moves/hash/evaluation compared; (b) canonical FEN strings generated by TLC from 5 boards x all admissible castling-right sets x en-passant targets on both ranks x 9 counter pairs (beyond 2^32 and 2^63 as text), read and written back by the implementation; distinct = distinct FEN texts",
+                         "samples": (samples + ["".join(evs[0]["text"])])[:3], "canonical_fens_generated": tot})
+    chk.finish()
+
+
+def check_san(pid, tier, seed):
+    chk = Check(pid, tier, seed, "exploration")
+    wd = workdir(pid)
+    wvbin = build()
+    quick = tier == "quick"
+    games, plies = (30, 70) if quick else (400, 120)
+    info = play_traces(chk, wvbin, wd, "move", games, plies)
+    outs = textgen(chk, wd, "san", os.path.join(wd, "play.move.ndjson"), NPROC, range(NPROC), "p")
+    tot, samples = replay_text(chk, wvbin, wd, "san", outs, pid, "p", ("fen", "text", "mv"))
+    stride = NPROC * (40 if quick else 4)
+    outs = textgen(chk, wd, "amb", None, stride, [(seed * 5 + i) % stride for i in range(NPROC)], "a")
+    tot2, samples2 = replay_text(chk, wvbin, wd, "san", outs, pid, "a", ("fen", "text", "mv"))
+    chk.coverage.update({"evaluations": tot.get("spellings", 0) + tot2.get("spellings", 0) + tot.get("negatives", 0) + tot2.get("negatives", 0),
+                         "distinct_nontrivial": tot.get("moves_with_more_than_two_spellings", 0) + tot2.get("moves_with_more_than_two_spellings", 0),
+                         "rule": "every admissible SAN spelling (all disambiguation levels, x, =Q/Q, +/#, O-O/O-O-O) of every legal move, generated by ChessText!SanSpellings for positions of seeded play and for the TLC-enumerated ambiguity family (three like pieces reaching one square), parsed by the implementation and matched against its legal moves; full-square spellings of pseudo-legal-but-illegal moves as negatives; LAN text compared with ChessText!Lan and resolved again; non-trivial = moves with more than two admissible spellings",
+                         "samples": (samples + samples2)[:3], "from_play": tot, "from_ambiguity_family": tot2})
+    chk.finish()
+
+
+CHECKS = {"C08": check_hash, "C11": check_fen, "C12": check_san, "C01": check_rules, "C02": check_rules, "C10": check_rules, "C05": check_eval, "C13": check_eval}
 
 
 def main():
